@@ -122,7 +122,9 @@ def report(ctx, bdir, rejects, module, cfg, what):
         groups.setdefault(key_of(o, clause), []).append(o)
     for key, obs in groups.items():
         safe = re.sub(r"[^A-Za-z0-9_.-]", "_", key)
-        rp = ctx.path(f"reject_{safe}.ndjson")
+        # replay files live beside (not inside) out/C17: the runner wipes out/C17 on every start, --replay included
+        os.makedirs(ctx.out + ".replay", exist_ok=True)
+        rp = os.path.join(ctx.out + ".replay", f"reject_{safe}.ndjson")
         ex = obs[:10] + obs[-10:] if len(obs) > 20 else obs
         vlib.write_ndjson(rp, ex)
         # second run: re-execute the same inputs on the code and judge again (a rejection must repeat)
@@ -247,6 +249,8 @@ def validate_spec_with_llvm(ctx, logvals, fpvals, seed):
 # ----------------------------------------------------------------------------------------------------------------
 def run(ctx):
     q = ctx.quick
+    import shutil
+    shutil.rmtree(ctx.out + ".replay", ignore_errors=True)
     # plain (unsanitized) build: Support::ror(x, 0) in encode_aarch32_imm shifts by 32 (UB, support.h:322), which a
     # UBSan build turns into an abort for A32_ADR inputs; that is outside C17 and must not break this check.
     bdir = ctx.build("plain", "codec")
@@ -256,7 +260,9 @@ def run(ctx):
     design = {}
 
     def design_job():
-        design["r"] = vlib.run_tlc(ctx, os.path.join(SPEC, "OffsetCodecMC.tla"), os.path.join(SPEC, "OffsetCodecMC.cfg"), workers=4,
+        dcfg = ctx.path("design.cfg")
+        open(dcfg, "w").write(open(os.path.join(SPEC, "OffsetCodecMC.cfg")).read().replace("Dense = TRUE", "Dense = " + ("FALSE" if q else "TRUE")))
+        design["r"] = vlib.run_tlc(ctx, os.path.join(SPEC, "OffsetCodecMC.tla"), dcfg, workers=6,
                                    timeout=1500, tag="design")
     th = threading.Thread(target=design_job)
     th.start()
